@@ -146,35 +146,64 @@ func verifC18Failover(generic bool) {
 	if errorsOff {
 		fut = -1
 	}
+	// a builder may also panic (recovered by the caller, as an HTTP server would); only where the build runs
+	// inside Get - a panic in the background goroutine would take the process down
+	builderPanics := false
+	if !builderOK && (syncUpdate || rw.state != 2) {
+		builderPanics = verifBool("builderPanics")
+	}
 	errBuild := errors.New("build failure")
 	ctx := context.Background()
 	builds := 0
+	recovered := false
+	guard := func(get func()) {
+		defer func() {
+			if r := recover(); r != nil {
+				recovered = true
+			}
+		}()
+		get()
+	}
 	if !generic {
 		f := NewFailover(FailoverConfig{Name: "fo", Stats: st, Backend: verifFaultyBackend{rw}, SyncRead: syncRead, SyncUpdate: syncUpdate, FailHard: failHard, MaxStaleness: time.Duration(maxStale), FailedUpdateTTL: fut}.Use)
-		_, _ = f.Get(ctx, []byte("k"), func(ctx context.Context) (interface{}, error) {
-			builds++
-			if builderOK {
-				return verifBuiltVal, nil
-			}
-			return nil, errBuild
+		guard(func() {
+			_, _ = f.Get(ctx, []byte("k"), func(ctx context.Context) (interface{}, error) {
+				builds++
+				if builderOK {
+					return verifBuiltVal, nil
+				}
+				if builderPanics {
+					panic("builder panics")
+				}
+				return nil, errBuild
+			})
 		})
 		verifBackgroundDone = func() bool { f.lock.Lock(); defer f.lock.Unlock(); return len(f.keyLocks) == 0 }
 	} else {
 		f := NewFailoverOf[int](FailoverConfigOf[int]{Name: "fo", Stats: st, Backend: verifFaultyBackendOf{rw}, SyncRead: syncRead, SyncUpdate: syncUpdate, FailHard: failHard, MaxStaleness: time.Duration(maxStale), FailedUpdateTTL: fut}.Use)
-		_, _ = f.Get(ctx, []byte("k"), func(ctx context.Context) (int, error) {
-			builds++
-			if builderOK {
-				return verifBuiltVal, nil
-			}
-			return 0, errBuild
+		guard(func() {
+			_, _ = f.Get(ctx, []byte("k"), func(ctx context.Context) (int, error) {
+				builds++
+				if builderOK {
+					return verifBuiltVal, nil
+				}
+				if builderPanics {
+					panic("builder panics")
+				}
+				return 0, errBuild
+			})
 		})
 		verifBackgroundDone = func() bool { f.lock.Lock(); defer f.lock.Unlock(); return len(f.keyLocks) == 0 }
 	}
 	verifRunBackground()
 	m := func(name string) float64 { return st.add[name+"|name=fo"] }
 	failed := 0
-	if builds > 0 && !builderOK {
+	if builds > 0 && !builderOK && !builderPanics {
 		failed = builds
+	}
+	if builderPanics && builds > 0 {
+		verifReach("builder panicked and the caller recovered")
+		verifAssert("a panic of the builder reaches the caller", recovered)
 	}
 	refreshed := 0
 	if state0 == 2 {
